@@ -35,23 +35,23 @@ type specExpr struct {
 }
 
 type Contract struct {
-	Key       string // package-local key as written
-	Full      string // ssa function name
-	Props     []string
-	Requires  []*Clause
-	Ensures   []*Clause
-	Invs      []*Clause
-	Assigns   []ast.Expr
-	HasAssign bool
-	PureFrame bool // assigns nothing
-	Trusted   bool // contract is assumed, not verified (must be listed in evidence)
-	Inline    bool // verified on its own, but callers inline the body
-	Mode      string // "interference": verified with other goroutines allowed to change shared stores between calls
+	Key        string // package-local key as written
+	Full       string // ssa function name
+	Props      []string
+	Requires   []*Clause
+	Ensures    []*Clause
+	Invs       []*Clause
+	Assigns    []ast.Expr
+	HasAssign  bool
+	PureFrame  bool                // assigns nothing
+	Trusted    bool                // contract is assumed, not verified (must be listed in evidence)
+	Inline     bool                // verified on its own, but callers inline the body
+	Mode       string              // "interference": verified with other goroutines allowed to change shared stores between calls
 	Discipline map[string][]string // ghost protocol disciplines checked on this function: name -> props
-	Effects   []*Effect
-	File      string
-	Pkg       string
-	Temporal  []*Temporal
+	Effects    []*Effect
+	File       string
+	Pkg        string
+	Temporal   []*Temporal
 }
 
 // Temporal obligations over the call history of one execution of the function.
@@ -63,7 +63,7 @@ type Temporal struct {
 	A      string // pattern of the triggering call
 	B      string // pattern of the required call
 	Cond   *specExpr
-	B2     string    // alternative required call
+	B2     string // alternative required call
 	Cond2  *specExpr
 	When   *specExpr // filter on the triggering call
 	Unless *specExpr
@@ -72,13 +72,13 @@ type Temporal struct {
 
 // Effect updates a ghost predicate when a contract is applied at a call site.
 type Effect struct {
-	Cond  *specExpr
-	Pred  string
-	Arg   ast.Expr
-	Value bool
-	Src   string
-	Line  string
-	Primitive bool // the callee's outcome defines the predicate (not re-checked against the body)
+	Cond      *specExpr
+	Pred      string
+	Arg       ast.Expr
+	Value     bool
+	Src       string
+	Line      string
+	Primitive bool      // the callee's outcome defines the predicate (not re-checked against the body)
 	Var       string    // ghost integer variable updated (instead of a predicate)
 	VarExpr   *specExpr // new value
 }
@@ -91,17 +91,18 @@ type SpecFn struct {
 }
 
 type SpecDB struct {
-	Contracts map[string]*Contract // by ssa function name
-	Fns       map[string]*SpecFn
-	Iface     map[string]string // invoke name -> kind
-	Pure      map[string]bool   // extern static callees with no side effects
-	Files     []string
-	Errors    []string
-	UFs       map[string][]string // name -> arg sorts..., result sort
-	GhostPreds map[string]string  // name -> key sort
-	GhostVars  map[string]bool
-	Disjoint   [][2]string // pairs of uninterpreted functions with disjoint ranges
-	Lemmas     []*Lemma
+	Contracts    map[string]*Contract // by ssa function name
+	Fns          map[string]*SpecFn
+	Iface        map[string]string       // invoke name -> kind
+	Pure         map[string]bool         // extern static callees with no side effects
+	ReadonlyArgs map[string]map[int]bool // extern callees: argument positions whose reachable memory is never written
+	Files        []string
+	Errors       []string
+	UFs          map[string][]string // name -> arg sorts..., result sort
+	GhostPreds   map[string]string   // name -> key sort
+	GhostVars    map[string]bool
+	Disjoint     [][2]string // pairs of uninterpreted functions with disjoint ranges
+	Lemmas       []*Lemma
 }
 
 // Lemma is a closed formula over universally quantified variables, checked for all values.
@@ -116,7 +117,7 @@ type Lemma struct {
 }
 
 func NewSpecDB() *SpecDB {
-	return &SpecDB{Contracts: map[string]*Contract{}, Fns: map[string]*SpecFn{}, Iface: map[string]string{}, Pure: map[string]bool{}, UFs: map[string][]string{}, GhostPreds: map[string]string{}, GhostVars: map[string]bool{}}
+	return &SpecDB{Contracts: map[string]*Contract{}, Fns: map[string]*SpecFn{}, Iface: map[string]string{}, Pure: map[string]bool{}, ReadonlyArgs: map[string]map[int]bool{}, UFs: map[string][]string{}, GhostPreds: map[string]string{}, GhostVars: map[string]bool{}}
 }
 
 var tagRe = regexp.MustCompile(`^\[([^\]]*)\]\s*`)
@@ -404,6 +405,24 @@ func (db *SpecDB) LoadSpecFile(path, pkgPath string) {
 			db.GhostPreds[strings.TrimSpace(rest[:i])] = strings.TrimSpace(rest[i+1 : j])
 		case word == "purefn":
 			db.Pure[rest] = true
+		case word == "readonlyarg":
+			// readonlyarg <external function> <index>...: the call never writes the memory reachable from these arguments
+			f := strings.Fields(rest)
+			if len(f) < 2 {
+				fail("readonlyarg syntax: readonlyarg <function> <index>...")
+				continue
+			}
+			if db.ReadonlyArgs[f[0]] == nil {
+				db.ReadonlyArgs[f[0]] = map[int]bool{}
+			}
+			for _, x := range f[1:] {
+				n, err := strconv.Atoi(x)
+				if err != nil {
+					fail("readonlyarg: bad index " + x)
+					continue
+				}
+				db.ReadonlyArgs[f[0]][n] = true
+			}
 		case word == "uf":
 			// uf name(S1,S2) S
 			i := strings.Index(rest, "(")
@@ -591,15 +610,15 @@ func qualify(key, pkg string) string {
 type nilMarker struct{}
 
 type Env struct {
-	ex     *Exec
-	st     *State
-	old    map[*Object]Value // heap snapshot for old(); nil => st.PreHeap
-	inOld  bool
-	names  map[string]Value
-	types  map[string]types.Type
-	errs   *[]string
+	ex       *Exec
+	st       *State
+	old      map[*Object]Value // heap snapshot for old(); nil => st.PreHeap
+	inOld    bool
+	names    map[string]Value
+	types    map[string]types.Type
+	errs     *[]string
 	oldGhost map[string]Value
-	subs   map[string]*specExpr
+	subs     map[string]*specExpr
 }
 
 func (e *Env) fail(format string, a ...interface{}) Value {
